@@ -431,12 +431,76 @@ def run_c09(ctx):
     return merged
 
 
+def run_vgen(ctx, cmd, name, extra=None):
+    vgen = ctx.build("vgen")
+    return ctx.run_engine(vgen, ["--cmd", cmd] + (extra or []), name)
+
+
+def probe_inherited(ctx):
+    """Known finding of C11: does a grammar using the Unicode property INHERITED compile?"""
+    p = ctx.cargo(["build", "--offline", "--manifest-path", os.path.join(ctx.root, ENGINES_DIR, "probes", "inherited", "Cargo.toml")], ".", "compile probe (Unicode property INHERITED)", timeout=1800)
+    doc = {"evaluations": 1, "distinct_nontrivial": 1, "counters": {"compile_probes": 1}, "samples": [], "violations": [], "violation_counts": {}, "inconclusive": [], "notes": []}
+    if p.returncode == 0:
+        doc["counters"]["compile_probe_compiled"] = 1
+        return doc
+    errors = [l for l in p.stdout.splitlines() if l.startswith("error")]
+    e0747 = [l for l in errors if "E0747" in l]
+    if e0747:
+        sig = "C11/known/grammar-using-unicode-property-INHERITED-does-not-compile"
+    elif any("could not compile `probe_inherited`" in l for l in errors) and all(("probe_inherited" in l or "E0" in l) for l in errors):
+        sig = "unclassified/C11/compile-probe-fails-differently"
+    else:
+        raise Inconclusive("compile probe failed outside the probe crate:\n" + "\n".join(errors[:10]))
+    doc["violations"].append({"signature": sig, "what": "a pest-valid grammar that uses the Unicode property INHERITED does not compile: " + (e0747[0] if e0747 else errors[0]),
+                              "witness": {"grammar": "mark = { INHERITED+ }", "crate": "engines/probes/inherited", "errors": errors[:5]}})
+    doc["violation_counts"][sig] = 1
+    return doc
+
+
 def run_c11(ctx):
-    return run_harness(ctx)
+    if ctx.replay:
+        return run_harness(ctx)
+    docs = [run_harness(ctx)]
+    g = run_vgen(ctx, "c11", "vgen-c11")
+    docs.append(g)
+    docs.append(probe_inherited(ctx))
+    merged = merge_results(docs)
+    merged["rule"] = HARNESS_RULE + " || " + g.get("rule", "")
+    return merged
 
 
 def run_c20(ctx):
-    return run_harness(ctx)
+    if ctx.replay:
+        return run_harness(ctx)
+    h = run_harness(ctx)
+    # determinism: the token stream of every (grammar, option set) in three separate processes
+    runs = [run_vgen(ctx, "c20det", "vgen-c20det-%d" % i) for i in range(3)]
+    det = {"evaluations": 0, "distinct_nontrivial": 0, "counters": {}, "samples": [], "violations": [], "violation_counts": {}, "inconclusive": [], "notes": []}
+    base = runs[0]["streams"]
+    pids = {r["pid"] for r in runs}
+    det["counters"]["generator_processes"] = len(pids)
+    for key, v in base.items():
+        det["evaluations"] += 1
+        det["distinct_nontrivial"] += 1
+        det["counters"]["token_streams_compared"] = det["counters"].get("token_streams_compared", 0) + 1
+        others = [r["streams"].get(key) for r in runs[1:]]
+        if any(o != v for o in others):
+            sig = "unclassified/C20/nondeterministic-generation"
+            det["violation_counts"][sig] = det["violation_counts"].get(sig, 0) + 1
+            if len(det["violations"]) < 3:
+                det["violations"].append({"signature": sig, "what": "the generated token stream for %s differs between processes: %s vs %s" % (key, v, others), "witness": {"key": key, "streams": [v] + others}})
+        if v.startswith("panic:"):
+            sig = "unclassified/C20/generator-panics-under-option-set"
+            det["violation_counts"][sig] = det["violation_counts"].get(sig, 0) + 1
+            if len(det["violations"]) < 3:
+                det["violations"].append({"signature": sig, "what": "the generator panics for %s: %s" % (key, v), "witness": {"key": key}})
+    if base:
+        k0 = sorted(base)[0]
+        det["samples"].append({"key": k0, "stream_len_and_hash": base[k0], "processes": sorted(pids)})
+    merged = merge_results([h, det])
+    merged["programs"] = h.get("programs", 0)
+    merged["rule"] = HARNESS_RULE + " || determinism: one (grammar, option set) token stream hashed in three separate generator processes"
+    return merged
 
 
 TRUST_PEST_TEXT = [
@@ -577,23 +641,25 @@ PROPS = {
     "C11": {
         "run": run_c11,
         "engine": "harness+vgen",
-        "technique": "bounded-progress monitor (logical step budget hook, 1000 x reference steps + 10^6) on every parse; the corpus build is the 'emits code that compiles' observation",
+        "technique": "generator called as a library under catch_unwind vs pest_meta's validator verdict on ill-formed / edited grammars; rustc on the corpus expansions; bounded-progress monitor (logical step budget hook, 1000 x reference steps + 10^6) on every parse",
         "design_ref": "6/C11",
-        "level_text": "Termination is restated as bounded progress: every entry point on every case must finish within 1000 x (reference interpreter steps) + 10^6 hook ticks, counted deterministically; a wall-clock watchdog only yields 'inconclusive'. All corpus grammars are compiled by the real derive; a compile error located in a derive expansion is a violation.",
+        "level_text": "The real derive_typed_parser is called under catch_unwind on a hand-made ill-formed family (left recursion direct/indirect/through optionals, predicates, silent rules, PUSH; non-failing or non-progressing repetition bodies; unreachable alternatives; non-progressing skip rules), on every corpus grammar and on seeded textual edits of them: it must refuse exactly what pest_meta's validator refuses for those four categories and must not panic on what pest accepts. Termination is restated as bounded progress: every entry point on every case must finish within 1000 x (reference interpreter steps) + 10^6 hook ticks, counted deterministically; a wall-clock watchdog only yields 'inconclusive'. All corpus grammars are compiled by the real derive; a compile error located in a derive expansion is a violation.",
         "level_note": "grammars that pest accepts but that are not well-founded on an input (runaway recursion through a predicate, non-progressing repetition) are detected by the model and excluded, as the property's precondition says",
         "level": "exploration",
-        "required": {"parses_with_step_budget": 100000, "hook_ticks": 1000000},
+        "required": {"parses_with_step_budget": 100000, "hook_ticks": 1000000, "refused_by_both": 100, "generated_for_valid": 100,
+                     "rejected_by_pest_left-recursion": 10, "rejected_by_pest_repetition-body-cannot-fail-or-progress": 10,
+                     "rejected_by_pest_unreachable-alternative": 10, "rejected_by_pest_non-progressing-skip-rule": 5, "compile_probes": 1},
         "assumptions": TRUST_HARNESS,
     },
     "C20": {
         "run": run_c20,
         "engine": "harness+vgen",
-        "technique": "self-differential runtime monitor across option variants compiled from the same grammar text (seven option sets), known optimizer-off divergence recognised by interpreting the raw AST",
+        "technique": "self-differential runtime monitor across option variants compiled from the same grammar text (seven option sets), known optimizer-off divergence recognised by interpreting the raw AST; token-stream comparison across separate generator processes",
         "design_ref": "6/C20",
         "level_text": "The same grammars are compiled under box_only_if_needed, emit_rule_reference=false, emit_tagged_node_reference, do_not_emit_span, no_warnings, all-on and pest_optimizer=false; for every case verdict, offset and token tree of the prefix parse and the verdict of the full parse must equal the default build's (which C01/C02 tie to pest). Mutually recursive grammars are in the set; a variant module that does not compile is a violation.",
         "level_note": "translation_validation: programs = grammar x option-set modules compiled",
         "level": "translation_validation",
-        "required": {"variant_runs": 100000, "variant_noopt": 10000, "variant_boxifneeded": 10000},
+        "required": {"variant_runs": 100000, "variant_noopt": 10000, "variant_boxifneeded": 10000, "token_streams_compared": 200, "generator_processes": 3},
         "assumptions": TRUST_HARNESS,
     },
     "C12": {
